@@ -35,10 +35,26 @@ def parseTable (j : Json) : Except String Table := do
 (threaded through `in_next` / `extract_by_src`, *not* recomputed from the slot's path). -/
 abbrev St := Nat × List Int
 
+/-- The key under which `tableLM` looks a row up (the threaded state plus the newest token). -/
+def lmKey (t : Nat) (col : List Int) (st : St) : List Int :=
+  if t = 0 then st.2 else st.2 ++ [col.getD (t - 1) 0]
+
 def tableLM (V : Nat) (tables : Array Table) : LM St where
   run := fun t col st =>
-    let h := if t = 0 then st.2 else st.2 ++ [col.getD (t - 1) 0]
+    let h := lmKey t col st
     (((tables.getD st.1 {}).get? h).getD (List.replicate V none), (st.1, h))
+
+/-- Histories whose scores the model NEEDS at step `t` for one element that is not finished (slots with a
+finite score whose path has not ended: everything else gets the eos row or stays `-inf` whatever the
+language model says) and that the table does not hold. With a table that was built on demand (size
+classes: the tree of all histories cannot be enumerated) a non-empty answer means that the model's
+trajectory leaves the set of histories the harness asked the unbatched language model about. -/
+def elemMissing (cfg : Cfg) (tables : Array Table) (t : Nat) (e : Elem St) : List (Nat × List Int) :=
+  (e.slots.zip e.sts).filterMap fun (s, st) =>
+    if s.score.isSome && !isEnded cfg.eos t s then
+      let k := lmKey t (s.col.map (clampTok cfg.V)) st
+      if (tables.getD st.1 {}).contains k then none else some (st.1, k)
+    else none
 
 def specOf (V : Nat) (tb : Table) : List Int → List Score :=
   fun h => (tb.get? h).getD (List.replicate V none)
@@ -102,10 +118,13 @@ structure Traj where
   /-- every selection so far satisfied `sepB margin` (only evaluated when a margin is given) -/
   sep : Bool := true
   frozen : List (Option Nat) := []
+  /-- needed and absent table rows (`elemMissing`), the first few, and how many -/
+  missing : List (Nat × List Int) := []
+  nMissing : Nat := 0
 
 /-- The model's `loop`, re-run step by step through `stepBatch` so that tie flags can be
 collected along the trajectory (the result is asserted equal to `search`). -/
-def loopFlags (cfg : Cfg) (lm : LM St) (margin : Option Rat) :
+def loopFlags (cfg : Cfg) (lm : LM St) (tables : Array Table) (margin : Option Rat) :
     Nat → Nat → Nat → Nat → List (Elem St) → Traj → Nat →
     (Except String (Nat × List (Elem St))) × Traj × Nat
   | 0, t, S, _, elems, fl, _ => (Except.ok (S, elems), fl, t)
@@ -118,8 +137,11 @@ def loopFlags (cfg : Cfg) (lm : LM St) (margin : Option Rat) :
           let sp := match margin with
             | none => true
             | some m => elemSep m cfg lm t e
+          let ms := elemMissing cfg tables t e
           ({ acc with tie := acc.tie || ti.1, ninf := acc.ninf || ti.2.1,
-                      gap := minGap acc.gap ti.2.2, sep := acc.sep && sp } : Traj)) fl
+                      gap := minGap acc.gap ti.2.2, sep := acc.sep && sp,
+                      missing := if acc.missing.length < 4 then acc.missing ++ ms.take 2 else acc.missing,
+                      nMissing := acc.nMissing + ms.length } : Traj)) fl
       let fr : List (Option Nat) := (elems.zip fl1.frozen).map fun (e, f) =>
         match f with
         | some s => some s
@@ -127,7 +149,7 @@ def loopFlags (cfg : Cfg) (lm : LM St) (margin : Option Rat) :
       let fl' : Traj := { fl1 with frozen := fr }
       match stepBatch selDet cfg lm (0, []) t S Kp elems with
       | .error e => (Except.error e, fl', t)
-      | .ok (S', elems') => loopFlags cfg lm margin fuel (t + 1) S' cfg.width elems' fl' 0
+      | .ok (S', elems') => loopFlags cfg lm tables margin fuel (t + 1) S' cfg.width elems' fl' 0
 
 def c04Search : Handler := fun c => do
   let V ← getNat c "V"
@@ -162,7 +184,7 @@ def c04Search : Handler := fun c => do
       let cfg : Cfg := ⟨V, width, eos, finishAll, pad, 0, pinned⟩
       let lm := tableLM V tables.toArray
       let inits : List St := (List.range tables.length).map fun n => (n, [])
-      let (res, fl, steps) := loopFlags cfg lm margin fuel 0 0 1 (inits.map initElem)
+      let (res, fl, steps) := loopFlags cfg lm tables.toArray margin fuel 0 0 1 (inits.map initElem)
         ({ frozen := inits.map fun _ => none } : Traj) 0
       let direct := search selDet cfg lm (0, []) inits fuel
       let modelJ ← match res, direct with
@@ -187,7 +209,10 @@ def c04Search : Handler := fun c => do
           ("eos", optJ intJ eos)]),
         ("flags", objJ [("tie", boolJ fl.tie), ("ninf_choice", boolJ fl.ninf), ("steps", natJ steps),
           ("gap", optJ ratToJson fl.gap), ("sep", boolJ fl.sep),
-          ("frozen", listJ (optJ natJ) fl.frozen)])])
+          ("frozen", listJ (optJ natJ) fl.frozen),
+          ("missing", listJ (fun (m : Nat × List Int) => objJ [("element", natJ m.1),
+            ("history", listJ intJ m.2)]) fl.missing),
+          ("n_missing", natJ fl.nMissing)])])
 
 /-- case: {V, width, S, lens_given, rows: [ {cols:[[..]..], lens:[..], scores:[..], logp:[[..]..]} ]} -/
 def c04Advance : Handler := fun c => do
